@@ -57,7 +57,11 @@ int pre(const char* kind, const std::string& path) {
 void post(const char* kind, const std::string& path, int fd_for_torn) {
 	if (!g_ip_active || G.mode != CRASH || reent || !under_root(path)) return;
 	if (G.nops == G.k && G.after) {
-		if (G.torn >= 0 && fd_for_torn >= 0) { auto rt = real<int (*)(int, off_t)>("ftruncate"); rt(fd_for_torn, (off_t)G.torn); }
+		if (G.torn != -1 && fd_for_torn >= 0) { // torn write: the flush happened, now cut the file back (absolute size, -2 = half, -3 = size-1)
+			auto rt = real<int (*)(int, off_t)>("ftruncate"); struct stat st; off_t target = G.torn;
+			if (fstat(fd_for_torn, &st) == 0) { if (G.torn == -2) target = st.st_size / 2; else if (G.torn == -3) target = st.st_size - 1; if (target > st.st_size) target = st.st_size; }
+			if (target < 0) target = 0;
+			rt(fd_for_torn, target); }
 		death_note("crash-after", G.nops); _exit(137);
 	}
 	(void)kind;
